@@ -2,6 +2,8 @@
 
 from __future__ import annotations
 
+import math
+
 
 class Servo:
     """In-memory model of a servo actuator.
@@ -21,10 +23,13 @@ class Servo:
         min_pulse_us: float = 544.0,
         max_pulse_us: float = 2400.0,
     ) -> None:
-        if min_angle >= max_angle:
+        if not min_angle < max_angle:
             raise ValueError("min_angle must be smaller than max_angle")
-        if min_pulse_us >= max_pulse_us:
+        if not min_pulse_us < max_pulse_us:
             raise ValueError("min_pulse_us must be smaller than max_pulse_us")
+        bounds = (min_angle, max_angle, min_pulse_us, max_pulse_us)
+        if not all(math.isfinite(bound) for bound in bounds):
+            raise ValueError("servo bounds must be finite")
 
         self.pin = pin
         self._min_angle = float(min_angle)
